@@ -202,12 +202,13 @@ type Printer struct {
 	sb      *strings.Builder
 	done    map[int]bool
 	Vars    []*Node // variables declared
-	apps    map[string][]*Node
-	appVars map[int]string
+	apps     map[string][]*Node
+	appVars  map[int]string
+	declared map[string]bool
 }
 
 func NewPrinter(b *B, sb *strings.Builder) *Printer {
-	return &Printer{b: b, sb: sb, done: map[int]bool{}, apps: map[string][]*Node{}, appVars: map[int]string{}}
+	return &Printer{b: b, sb: sb, done: map[int]bool{}, apps: map[string][]*Node{}, appVars: map[int]string{}, declared: map[string]bool{}}
 }
 
 func sortStr(w int) string {
@@ -277,6 +278,10 @@ func (p *Printer) emit(n *Node) {
 	sb := p.sb
 	switch n.Op {
 	case OpVar:
+		if p.declared[n.Name] {
+			return // a view of an already declared variable
+		}
+		p.declared[n.Name] = true
 		fmt.Fprintf(sb, "(declare-const |%s| %s)\n", n.Name, sortStr(n.W))
 		p.Vars = append(p.Vars, n)
 		if rc := p.b.RangeConstraint(n); rc != nil {
